@@ -624,7 +624,18 @@ func planC17(t *testing.T, tier string, seed uint64) ([]RunSpec, error) {
 				if n <= 3 && (quick(tier) && late == 0 && n >= 2 || !quick(tier)) {
 					b := base.clone()
 					b.Sim = SimParams{StepCostNs: 1000}
-					plan = append(plan, sweep(t, b, sweepCap, nil)...)
+					cap := sweepCap
+					if cap > 0 && (shape == 1 || shape == 2) {
+						cap = 4 * sweepCap // the shapes in which several cores spawn at overlapping times
+					}
+					plan = append(plan, sweep(t, b, cap, nil)...)
+					if shape == 1 || shape == 2 {
+						// the same sweep with expensive steps: the host's 5 ms polls then fall between the
+						// completions of individual cores instead of after all of them
+						bs := base.clone()
+						bs.Sim = SimParams{StepCostNs: 100000}
+						plan = append(plan, sweep(t, bs, cap, nil)...)
+					}
 					b2 := base.clone()
 					b2.Sim = SimParams{StepCostNs: 1000, Quantum: []int64{8, 64}}
 					if !quick(tier) {
